@@ -477,3 +477,33 @@ func VerifH_c13_queued_exec() {
 	}
 	vAssert("other-connection-served-afterwards", vIsOK(vCmd(other, "SET", "x", "1")))
 }
+
+// VerifH_c01_line_replies: whatever text ends up in a simple-string or error
+// reply (error messages quote client bytes), the serialised reply is one
+// line: its type byte, a body without any CR or LF byte, and the final CR LF.
+// This is the serializer's half of "no reply ever contains bytes that break
+// RESP framing", for every text of up to 5 (thorough 8) arbitrary bytes.
+func VerifH_c01_line_replies() {
+	n := 5
+	if vTier() > 0 {
+		n = 8
+	}
+	s := vString("s", n)
+	var v respValue
+	if vBool("error") {
+		v = respValue{data: respErrorString("ERR " + s)}
+	} else {
+		v = respValue{data: respSimpleString(s)}
+	}
+	out := v.serialize()
+	vAssert("line-reply-ends-with-crlf", len(out) >= 3 && out[len(out)-2] == '\r' && out[len(out)-1] == '\n')
+	if len(out) < 3 {
+		return
+	}
+	clean := true
+	for _, c := range out[1 : len(out)-2] {
+		clean = vAnd(clean, c != '\r' && c != '\n')
+	}
+	vAssert("line-reply-body-has-no-line-break", clean)
+	vOneFrame("line-reply", out)
+}
